@@ -93,6 +93,7 @@ static void *c19_memcpy(void *d, const void *s, size_t n)
 }
 
 #define memcpy(d, s, n) c19_memcpy(d, s, n)
+
 #define malloc(n) c19_malloc(n)
 #define calloc(a, b) c19_calloc(a, b)
 #define free(p) c19_free(p)
